@@ -12,13 +12,39 @@ package main
 
 import (
 	"fmt"
+	"strings"
 	"time"
 
 	"github.com/slackhq/nebula"
 	"verifharness/hx"
 )
 
-func init() { hx.Register("lifecycle", runLifecycle) }
+func init() {
+	hx.Register("lifecycle", runLifecycle)
+	hx.Register("gen_lifecycle", genLifecycle)
+}
+
+// genLifecycle (T2): what the real Interface.send puts into the lighthouse query channel, for every message type, with
+// the tunnel's rebind counter behind the interface's or not, on a plain node and on a lighthouse.
+func genLifecycle(c *hx.Ctx) {
+	var sb strings.Builder
+	sb.WriteString("(* GENERATED from /repo (inside.go Interface.send / sendNoMetrics, lighthouse.go QueryServer) by harness gen_lifecycle: do not edit *)\nFrom Coq Require Import List NArith Bool.\nImport ListNotations.\nOpen Scope N_scope.\n")
+	fmt.Fprintf(&sb, "Definition t_close_tunnel : N := %d.\n", nebula.VerifLifeCloseTunnelType)
+	var rows []string
+	for t := 0; t <= nebula.VerifLifeMaxMessageType; t++ {
+		for _, mism := range []bool{false, true} {
+			for _, lh := range []bool{false, true} {
+				n := nebula.VerifLifeSendQueries(t, mism, lh)
+				if n2 := nebula.VerifLifeSendQueries(t, mism, lh); n2 != n {
+					panic("Interface.send is not a function of (type, rebind mismatch, am_lighthouse) as far as the query channel goes")
+				}
+				rows = append(rows, hx.Tuple(hx.N(uint64(t)), hx.Bool(mism), hx.Bool(lh), hx.N(uint64(n))))
+			}
+		}
+	}
+	fmt.Fprintf(&sb, "(* message type, tunnel's lastRebindCount <> interface's rebindCount, am_lighthouse, entries put into LightHouse.queryChan *)\nDefinition send_queries : list (N * bool * bool * N) := [\n  %s].\n", strings.Join(rows, ";\n  "))
+	c.WriteFile("Tab_Lifecycle.v", sb.String())
+}
 
 func lifeCfgLit(routines int, lhclient, lhupdate, ctcache, dns, sshd bool) string {
 	return hx.App("mkCfg", hx.Nat(routines), hx.Bool(lhclient), hx.Bool(lhupdate), hx.Bool(ctcache), hx.Bool(dns), hx.Bool(sshd))
